@@ -76,8 +76,11 @@ func (t *ServerTransport) Handshake(handshakePacket *parser.Packet, w http.Respo
 	if err != nil {
 		return
 	}
-	if t.readLimit != 0 {
+	if t.readLimit > 0 {
 		t.conn.SetReadLimit(t.readLimit)
+	} else {
+		// MaxBufferSize is disabled. Don't leave the default limit (32768 bytes) of the library in place.
+		t.conn.SetReadLimit(-1)
 	}
 	// sid is only for webtransport
 	return "", t.writeHandshakePacket(handshakePacket)
